@@ -98,6 +98,8 @@ def main(tier):
     units = ir.run_units(specs, 'C13')
     ck.add_units(units, specs)
     c17.rule_D(ck, units)
+    c17.rule_E(ck, units, floor=1)   # the block adapter only ever sees row-sorted matrices (shared with C17)
+    c17.rule_E_adapter(ck, units)
     rule_acc(ck, units)
     rule_view(ck, units)
     ck.assumptions += ['that block, complex-adapter, hybrid-backend and scalar formulations have the same entries / solutions, and that the mixed-precision solver reaches 1e-8, is numerical and NOT decided']
